@@ -92,7 +92,15 @@ TCommit ==
          dup == newv \cap {hist[i][3] : i \in {j \in 1..Len(hist) : hist[j][2] = 1}}
          v1 == IF Ev.first # Len(hist) + 1
                THEN V(<<"C05">>, "SequenceNotConsecutive", <<Ev.first, Len(hist)>>, 0) ELSE <<>>
-         v2 == IF dup # {} THEN V(<<"C05">>, "WriteAppliedTwice", SetToSeq(dup), 0) ELSE <<>> IN
+         v2 == IF dup # {} THEN V(<<"C05">>, "WriteAppliedTwice", SetToSeq(dup), 0) ELSE <<>>
+         \* a commit (= what becomes visible at once) holds some but not all operations of a
+         \* client's batch
+         split == {t \in DOMAIN pend :
+                     /\ pend[t].op \in {"put", "del", "batch"} /\ ~pend[t].committed
+                     /\ PutVals(pend[t].ops) \cap newv # {}
+                     /\ ~(PutVals(pend[t].ops) \subseteq newv)}
+         v3 == IF split # {} THEN V(<<"C06", "C05">>, "CommitSplitsBatch", SetToSeq(split), 0)
+               ELSE <<>> IN
      /\ hist' = IF Ev.ok
                 THEN hist \o [i \in 1..n |-> <<Ev.ops[i].key, Ev.ops[i].op,
                                               IF Ev.ops[i].op = 1 THEN Ev.ops[i].val ELSE 0>>]
@@ -104,7 +112,7 @@ TCommit ==
                    IF pend[t].op \in {"put", "del", "batch"} /\ ~pend[t].committed
                       /\ PutVals(pend[t].ops) # {} /\ PutVals(pend[t].ops) \subseteq newv
                    THEN [pend[t] EXCEPT !.committed = TRUE, !.cok = Ev.ok] ELSE pend[t]]
-     /\ viol' = (viol \o v1) \o v2
+     /\ viol' = ((viol \o v1) \o v2) \o v3
   /\ l' = l + 1
   /\ UNCHANGED <<runInfo, nk, lastLo, snapOf, iterOf, acks, ids>>
 
